@@ -77,6 +77,14 @@ func refBareLocation(s string) (gts.Region, bool) {
 	return seg, true
 }
 
+func regionAtomsAll(rr gts.Regions) [][]ratom {
+	out := make([][]ratom, len(rr))
+	for i, r := range rr {
+		out[i] = regionAtoms(r)
+	}
+	return out
+}
+
 type expRegion struct {
 	atoms []ratom
 	at    map[int]bool // acceptable position when zero-length
@@ -144,13 +152,27 @@ func c08LocatorEval(c c08Case) (bool, string, string) {
 		var loc gts.Locator
 		loc, err = gts.AsLocator(c.Str)
 		if err == nil {
+			// a locator is applied to every record of a stream: the second application
+			// (to a fresh, identical record) must give the same regions as the first
+			first := loc(gts.New(nil, append(gts.FeatureSlice(nil), feats...), cloneBytes(c08Residues(c.L))))
 			got = loc(seq)
+			if !reflect.DeepEqual(regionAtomsAll(first), regionAtomsAll(got)) || len(first) != len(got) {
+				err = fmt.Errorf("second application differs from the first: %v then %v", first, got)
+			}
+			for i := range first {
+				if i < len(got) && first[i].Head() != got[i].Head() {
+					err = fmt.Errorf("second application differs from the first: %v then %v", first, got)
+				}
+			}
 		}
 	}); p {
 		return false, "panic", fmt.Sprintf("AsLocator(%q) panics: %s", c.Str, msg)
 	}
 	if !judged {
 		return true, "", ""
+	}
+	if err != nil && strings.HasPrefix(err.Error(), "second application") {
+		return false, "locator-stateful", fmt.Sprintf("AsLocator(%q): %v", c.Str, err)
 	}
 	if err != nil {
 		return false, "locator-rejected", fmt.Sprintf("AsLocator(%q) rejected: %v", c.Str, err)
